@@ -2454,38 +2454,40 @@ static int _GD_ParseDirective(DIRFILE *D, struct parser_state *restrict p,
   return matched;
 }
 
-/* Resolve and record an alias, taking care of loops */
-static gd_entry_t *_GD_ResolveAlias(DIRFILE *restrict D, const gd_entry_t *base,
-    gd_entry_t *E)
+/* Resolve and record an alias, taking care of loops.  Aliases store the
+ * ultimate target in entry[0] and the direct link in entry[1].  An alias with
+ * a direct link but no ultimate target has already been found, in this pass, to
+ * lead nowhere (a dangling chain or a loop). */
+static gd_entry_t *_GD_ResolveAlias(DIRFILE *restrict D, gd_entry_t *E)
 {
-  gd_entry_t *T = NULL;
+  gd_entry_t *T, *L;
+  unsigned n, i;
 
-  dtrace("%p, %p, %p(%s)", D, base, E, E->field);
+  dtrace("%p, %p(%s)", D, E, E->field);
 
-  /* Find the target */
-  T = _GD_FindField(D, E->in_fields[0], strlen(E->in_fields[0]), D->entry,
-      D->n_entries, 0, NULL);
+  /* Follow the chain, recording the direct links, until it ends. */
+  for (n = 0, L = E; ; L = T, ++n) {
+    T = _GD_FindField(D, L->in_fields[0], strlen(L->in_fields[0]), D->entry,
+        D->n_entries, 0, NULL);
+    L->e->entry[1] = T;
 
-  /* Aliases store the ulitmate target in entry[0] and the direct link in
-   * entry[1] */
-  E->e->entry[1] = T;
-  if (T) {
-    if (T->field_type == GD_ALIAS_ENTRY) {
-      if (T->e->entry[0])
-        T = T->e->entry[0];
-      else if (base == T) /* loop */
-        T = NULL;
-      else
-        T = _GD_ResolveAlias(D, base, T);
+    if (T == NULL || T->field_type != GD_ALIAS_ENTRY)
+      break; /* a dangling alias or else the ultimate target */
+
+    if (T->e->entry[0]) { /* already resolved */
+      T = T->e->entry[0];
+      break;
+    } else if (T->e->entry[1]) { /* a loop, or known to lead nowhere */
+      T = NULL;
+      break;
     }
-
   }
 
-  E->e->entry[0] = T;
-
-  if (D->error) {
-    dreturn("%p", NULL);
-    return NULL;
+  /* Record the ultimate target in every alias visited */
+  for (i = 0, L = E; i <= n; ++i) {
+    gd_entry_t *next = L->e->entry[1];
+    L->e->entry[0] = T;
+    L = next;
   }
 
   dreturn("%p (\"%s\" > \"%s\" > \"%s\")", E->e->entry[0], E->field,
@@ -2500,16 +2502,20 @@ void _GD_UpdateAliases(DIRFILE *D, int reset)
 
   dtrace("%p, %i", D, reset);
 
-  if (reset)
-    for (u = 0; u < D->n_entries; ++u)
-      if (D->entry[u]->field_type == GD_ALIAS_ENTRY)
-        D->entry[u]->e->entry[0] = D->entry[u]->e->entry[1] = NULL;
+  /* Forget every alias (reset) or those without a target: something they
+   * lead to may have appeared since they were last resolved. */
+  for (u = 0; u < D->n_entries; ++u)
+    if (D->entry[u]->field_type == GD_ALIAS_ENTRY &&
+        (reset || D->entry[u]->e->entry[0] == NULL))
+    {
+      D->entry[u]->e->entry[0] = D->entry[u]->e->entry[1] = NULL;
+    }
 
   for (u = 0; u < D->n_entries; ++u)
     if (D->entry[u]->field_type == GD_ALIAS_ENTRY &&
         D->entry[u]->e->entry[1] == NULL)
     {
-      _GD_ResolveAlias(D, D->entry[u], D->entry[u]);
+      _GD_ResolveAlias(D, D->entry[u]);
     }
 
   dreturnvoid();
